@@ -161,6 +161,21 @@ Theorem C20_poll_error_iff : forall ps : list poll,
 Proof. exact poll_error_iff. Qed.
 Print Assumptions C20_poll_error_iff.
 
+(* one success after a history is reported as Success exactly when the history does not end with 20 or more
+   failures (i.e. the report before it was not Error) *)
+Theorem C20_success_after : forall obs : list bool,
+  cur (run_state ss_new (obs ++ [true])) = Success <-> (trailing false obs < 20)%N.
+Proof. exact success_after. Qed.
+Print Assumptions C20_success_after.
+
+(* recovery from Error takes exactly two successes: Transitioning after the first, Success after the second *)
+Theorem C20_recovery_needs_two : forall obs : list bool,
+  (20 <= trailing false obs)%N ->
+  cur (run_state ss_new (obs ++ [true])) = Transitioning /\
+  cur (run_state ss_new (obs ++ [true; true])) = Success.
+Proof. exact recovery_needs_two. Qed.
+Print Assumptions C20_recovery_needs_two.
+
 (* non-vacuity: a reachable Error state exists (20 failures), 19 do not suffice *)
 Example C20_nonvacuous :
   cur (run_state ss_new (repeat false 20)) = Error /\
